@@ -93,24 +93,38 @@ Proof.
 Qed.
 
 (* ---------- createDirOrFile's last step ---------- *)
-Lemma create_leaf_result s full t pl ln st res st' : full <> [] -> s_archive s = false ->
+Lemma create_leaf_result s full t pl ln st res st' : full <> [] ->
   create_leaf s full t pl ln st = (NOk res, st') ->
   res = ln /\
   lookup (st_fs st') full =
     Some (if s_isdir s then Dir else File (write0 (if t then [] else old_content (st_fs st) full) pl)) /\
   (forall q, lookup (st_fs st) q <> None -> q <> full -> lookup (st_fs st') q = lookup (st_fs st) q) /\
   st_map st' = st_map st /\
-  (forall y, exists st2, create_leaf s full t y ln st = (NOk ln, st2)).
+  (forall y, exists st2, create_leaf s full t y ln st = (NOk ln, st2)) /\
+  (s_archive s = true -> s_isdir s = true).
 Proof.
-  intros Hne Ha. unfold create_leaf. rewrite Ha. destruct (s_isdir s).
-  - destruct (do_create_directory full st) as [ok st1] eqn:E. destruct ok; [|discriminate].
-    intro Hx; inversion Hx; subst. destruct (do_create_directory_result _ _ _ Hne E) as (A & B & C).
-    split; [reflexivity|]. split; [exact A|]. split; [intros q Hq _; apply B; left; exact Hq|]. split; [exact C|].
+  intros Hne. unfold create_leaf.
+  assert (HD : forall (E : do_create_directory full st = (true, st')),
+     lookup (st_fs st') full = Some Dir /\
+     (forall q, lookup (st_fs st) q <> None -> q <> full -> lookup (st_fs st') q = lookup (st_fs st) q) /\
+     st_map st' = st_map st).
+  { intro E. destruct (do_create_directory_result _ _ _ Hne E) as (A & B & C).
+    split; [exact A|]. split; [intros q Hq _; apply B; left; exact Hq | exact C]. }
+  destruct (s_archive s).
+  - destruct (s_isdir s); cbn [negb]; [|discriminate].
+    destruct (do_create_directory full st) as [ok st1] eqn:E. destruct ok; [|discriminate].
+    intro Hx; inversion Hx; subst. destruct (HD eq_refl) as (A & B & C).
+    split; [reflexivity|]. split; [exact A|]. split; [exact B|]. split; [exact C|]. split; [|reflexivity].
     intro y. eexists; reflexivity.
-  - destruct (do_create_file full t pl st) as [ok st1] eqn:E. destruct ok; [|discriminate].
-    intro Hx; inversion Hx; subst. destruct (do_create_file_result _ _ _ _ _ E) as (A & B & C & D).
-    split; [reflexivity|]. split; [exact A|]. split; [intros q _ Hq; apply B; exact Hq|]. split; [exact C|].
-    intro y. destruct (D y) as (st2 & E2). rewrite E2. eexists; reflexivity.
+  - destruct (s_isdir s).
+    + destruct (do_create_directory full st) as [ok st1] eqn:E. destruct ok; [|discriminate].
+      intro Hx; inversion Hx; subst. destruct (HD eq_refl) as (A & B & C).
+      split; [reflexivity|]. split; [exact A|]. split; [exact B|]. split; [exact C|]. split; [|discriminate].
+      intro y. eexists; reflexivity.
+    + destruct (do_create_file full t pl st) as [ok st1] eqn:E. destruct ok; [|discriminate].
+      intro Hx; inversion Hx; subst. destruct (do_create_file_result _ _ _ _ _ E) as (A & B & C & D).
+      split; [reflexivity|]. split; [exact A|]. split; [intros q _ Hq; apply B; exact Hq|]. split; [exact C|]. split; [|discriminate].
+      intro y. destruct (D y) as (st2 & E2). rewrite E2. eexists; reflexivity.
 Qed.
 
 (* how createDirOrFile / createFile pick the local name *)
@@ -133,16 +147,17 @@ Proof.
 Qed.
 
 Lemma cdof_result cfg d s r0 rest t pl st ln st' :
-  Forall good (r0 :: rest) -> s_archive s = false -> map_good (st_map st) ->
+  Forall good (r0 :: rest) -> map_good (st_map st) ->
   create_dir_or_file cfg d s r0 rest t pl st = (NOk ln, st') ->
   good ln /\ map_good (st_map st') /\
   lookup (st_fs st') (d ++ ln :: rest) =
     Some (if s_isdir s then Dir else File (write0 (if t then [] else old_content (st_fs st) (d ++ ln :: rest)) pl)) /\
   (forall q, lookup (st_fs st) q <> None -> q <> d ++ ln :: rest -> lookup (st_fs st') q = lookup (st_fs st) q) /\
   name_choice cfg d st st' (Some (s_id s)) r0 ln /\
-  (forall y, exists st2, create_dir_or_file cfg d s r0 rest t y st = (NOk ln, st2)).
+  (forall y, exists st2, create_dir_or_file cfg d s r0 rest t y st = (NOk ln, st2)) /\
+  (s_archive s = true -> s_isdir s = true).
 Proof.
-  intros Hg Ha Hm. inversion Hg as [|? ? Hg0 Hgr]; subst. unfold create_dir_or_file.
+  intros Hg Hm. inversion Hg as [|? ? Hg0 Hgr]; subst. unfold create_dir_or_file.
   set (chosen := if overwrite cfg then Some (r0, st) else _).
   assert (Hch : chosen = None \/ exists l1 st1, chosen = Some (l1, st1) /\ good l1 /\ st_fs st1 = st_fs st /\
             map_good (st_map st1) /\ name_choice cfg d st st1 (Some (s_id s)) r0 l1).
@@ -163,10 +178,10 @@ Proof.
   destruct rest as [|c rest].
   - rewrite join_good by (constructor; [exact Hl | constructor]).
     intro Hx. assert (Hne : d ++ [l1] <> []) by (destruct d; discriminate).
-    destruct (create_leaf_result s (d ++ [l1]) t pl l1 st1 ln st' Hne Ha Hx) as (-> & A & B & C & D).
+    destruct (create_leaf_result s (d ++ [l1]) t pl l1 st1 ln st' Hne Hx) as (-> & A & B & C & D & Ar).
     split; [exact Hl|]. split; [rewrite C; exact Hm1|]. unfold old_content in *. rewrite Hold in A.
     split; [exact A|]. split; [intros q Hq Hq2; rewrite <- Hold; apply B; [rewrite Hold; exact Hq | exact Hq2]|].
-    split; [apply Hmap; exact C|]. exact D.
+    split; [apply Hmap; exact C|]. split; [exact D | exact Ar].
   - destruct (forall_good_split (c :: rest) ltac:(discriminate) Hgr) as [Hmid Hlast].
     set (mids := removelast (c :: rest)) in *. set (lst := last (c :: rest) []) in *.
     assert (Hsplit : c :: rest = mids ++ [lst]) by (apply app_removelast_last; discriminate).
@@ -176,7 +191,7 @@ Proof.
     assert (Hne1 : d ++ l1 :: mids <> []) by (destruct d; discriminate).
     destruct (do_create_directory_result _ _ _ Hne1 Ed) as (A1 & B1 & C1).
     intro Hx. assert (Hne : (d ++ l1 :: mids) ++ [lst] <> []) by (destruct d; discriminate).
-    destruct (create_leaf_result s _ t pl l1 st2 ln st' Hne Ha Hx) as (-> & A & B & C & D).
+    destruct (create_leaf_result s _ t pl l1 st2 ln st' Hne Hx) as (-> & A & B & C & D & Ar).
     assert (Hleaf : (d ++ l1 :: mids) ++ [lst] = d ++ l1 :: c :: rest).
     { rewrite Hsplit, <- app_assoc. reflexivity. }
     rewrite Hleaf in *.
@@ -187,7 +202,7 @@ Proof.
     split; [unfold old_content in *; rewrite Hl2 in A; exact A|].
     split; [intros q Hq Hq2; rewrite B; [rewrite <- Hold; apply B1; left; rewrite Hold; exact Hq | | exact Hq2]|].
     { rewrite B1; [rewrite Hold; exact Hq | left; rewrite Hold; exact Hq]. }
-    split; [apply Hmap; rewrite C, C1; reflexivity|].
+    split; [apply Hmap; rewrite C, C1; reflexivity|]. split; [|exact Ar].
     intro y. destruct (D y) as (st3 & E3). exists st3. exact E3.
 Qed.
 
@@ -222,7 +237,7 @@ From Trzsz Require Import Model.Transfer.
 
 
 Lemma tr_create_result c d p x st ln st' :
-  tr_p_archive p = false -> map_good (st_map st) ->
+  map_good (st_map st) ->
   tr_create c d p x st = (NOk ln, st') ->
   good ln /\ map_good (st_map st') /\ Forall good (tr_p_tail p) /\
   lookup (st_fs st') (d ++ ln :: tr_p_tail p) =
@@ -230,14 +245,15 @@ Lemma tr_create_result c d p x st ln st' :
           else File (write0 (if tr_json_names c then old_content (st_fs st) (d ++ ln :: tr_p_tail p) else []) x)) /\
   (forall q, lookup (st_fs st) q <> None -> q <> d ++ ln :: tr_p_tail p -> lookup (st_fs st') q = lookup (st_fs st) q) /\
   name_choice (tr_names_cfg c) d st st' (tr_p_id p) (tr_p_head p) ln /\
-  (forall y, exists st2, tr_create c d p y st = (NOk ln, st2)).
+  (forall y, exists st2, tr_create c d p y st = (NOk ln, st2)) /\
+  (tr_p_archive p = true -> tr_p_isdir p = true).
 Proof.
-  intros Ha Hm. unfold tr_create. destruct p as [nm|s sz]; cbn [tr_p_archive tr_p_tail tr_p_isdir tr_p_id tr_p_head] in *.
+  intros Hm. unfold tr_create. destruct p as [nm|s sz]; cbn [tr_p_archive tr_p_tail tr_p_isdir tr_p_id tr_p_head] in *.
   - destruct (tr_json c) eqn:Ej; [discriminate|]. intro Hx.
     destruct (create_file_result _ _ _ _ _ _ _ Hx) as (A & B & C & D & E).
     assert (Ejn : tr_json_names c = false) by (unfold tr_json in Ej; apply orb_false_iff in Ej; tauto).
     rewrite Ejn, write0_nil_l. split; [exact A|].
-    split; [|split; [constructor | split; [exact B | split; [exact C | split; [exact D | exact E]]]]].
+    split; [|split; [constructor | split; [exact B | split; [exact C | split; [exact D | split; [exact E | discriminate]]]]]].
     unfold name_choice in D. destruct (overwrite (tr_names_cfg c)); destruct D as [_ ->]; exact Hm.
   - assert (HJ : forall t, recv_json code_checks (tr_names_cfg c) d (Some s) t x st = (NOk ln, st') ->
       good ln /\ map_good (st_map st') /\ Forall good (tl (s_rel s)) /\
@@ -245,13 +261,14 @@ Proof.
         Some (if s_isdir s then Dir else File (write0 (if t then [] else old_content (st_fs st) (d ++ ln :: tl (s_rel s))) x)) /\
       (forall q, lookup (st_fs st) q <> None -> q <> d ++ ln :: tl (s_rel s) -> lookup (st_fs st') q = lookup (st_fs st) q) /\
       name_choice (tr_names_cfg c) d st st' (Some (s_id s)) (hd [] (s_rel s)) ln /\
-      (forall y, exists st2, recv_json code_checks (tr_names_cfg c) d (Some s) t y st = (NOk ln, st2))).
+      (forall y, exists st2, recv_json code_checks (tr_names_cfg c) d (Some s) t y st = (NOk ln, st2)) /\
+      (s_archive s = true -> s_isdir s = true)).
     { intro t. unfold recv_json. destruct (s_rel s) as [|r0 rest] eqn:Er; [discriminate|].
       destruct code_checks_on as [Hu _]. rewrite Hu. cbn [andb].
       destruct (forallb valid_name (r0 :: rest)) eqn:Ev; cbn [negb]; [|discriminate].
       apply forallb_valid_good in Ev. intro Hx. cbn [tl hd].
-      destruct (cdof_result _ _ _ _ _ _ _ _ _ _ Ev Ha Hm Hx) as (A & B & C & D & E & F).
-      split; [exact A|]. split; [exact B|]. split; [inversion Ev; assumption|]. auto. }
+      destruct (cdof_result _ _ _ _ _ _ _ _ _ _ Ev Hm Hx) as (A & B & C & D & E & F & Ar).
+      split; [exact A|]. split; [exact B|]. split; [inversion Ev; assumption|]. auto 10. }
     destruct (tr_json_names c) eqn:Ejn.
     + intro Hx. apply (HJ false Hx).
     + destruct (tc_directory c); [|discriminate]. intro Hx. apply (HJ true Hx).
@@ -312,204 +329,34 @@ Proof.
 Qed.
 
 (* ---------- the specification run leaves the source tree at the destination ---------- *)
-Section Tree.
-Variable c : tr_cfg.
-Variable d : path.
-Variable f0 : fs.
+From Trzsz Require Import Model.Wire Proofs.TransferArchive Proofs.TransferResume.
+From Trzsz Require Model.Resume Model.Archive.
 
+(* the protocol switches are ordered: the archive mode implies JSON names, which imply the pipelined exchange *)
+Lemma proto_order_src_ok :
+  (Consts.tr_proto_pipeline <=? Consts.tr_proto_json_names) = true /\
+  (Consts.tr_proto_json_names <=? Consts.tr_proto_archive) = true.
+Proof. split; reflexivity. Qed.
 
-Lemma tail_json e : tr_json c = true -> tr_tail c e = tl (te_rel e).
-Proof. unfold tr_tail, tr_payload. intros ->. reflexivity. Qed.
-Lemma tail_plain e : tr_json c = false -> tr_tail c e = [].
-Proof. unfold tr_tail, tr_payload. intros ->. reflexivity. Qed.
-Lemma pid_json e : tr_json c = true -> tr_p_id (tr_payload c e) = Some (te_id e).
-Proof. unfold tr_payload. intros ->. reflexivity. Qed.
-Lemma pid_plain e : tr_json c = false -> tr_p_id (tr_payload c e) = None.
-Proof. unfold tr_payload. intros ->. reflexivity. Qed.
-
-Definition Inv (st : state) (done : list (tr_entry * name)) : Prop :=
-  chain (st_fs st) d /\ map_good (st_map st) /\
-  (forall q, lookup f0 q <> None -> lookup (st_fs st) q <> None) /\
-  (forall e ln, In (e, ln) done -> lookup (st_fs st) (d ++ ln :: tr_tail c e) = Some (tr_node e)) /\
-  (tc_overwrite c = true -> forall e ln, In (e, ln) done -> ln = tr_key c e) /\
-  (tc_overwrite c = false -> forall e ln, In (e, ln) done ->
-     lookup f0 (d ++ [ln]) = None /\ lookup (st_fs st) (d ++ [ln]) <> None) /\
-  (tc_overwrite c = false -> tr_json c = true ->
-     (forall e ln, In (e, ln) done -> map_get (st_map st) (te_id e) = Some ln) /\
-     (forall id v, map_get (st_map st) id = Some v ->
-        lookup (st_fs st) (d ++ [v]) <> None /\ lookup f0 (d ++ [v]) = None) /\
-     (forall id1 id2 v, map_get (st_map st) id1 = Some v -> map_get (st_map st) id2 = Some v -> id1 = id2)).
-
-Lemma path_cons_inj (a : path) x1 t1 x2 t2 : a ++ x1 :: t1 = a ++ x2 :: t2 -> x1 = x2 /\ t1 = t2.
-Proof. intro E. apply app_inv_head in E. inversion E. auto. Qed.
-
-Lemma chain_not_leaf f ln tail a b : chain f d -> d = a ++ b -> a <> d ++ ln :: tail.
+Lemma archive_mode_facts c : tr_archive_mode c = true ->
+  tc_overwrite c = false /\ tr_json_names c = true /\ tr_json c = true /\ tr_pipeline c = true.
 Proof.
-  intros _ Hab E. apply (f_equal (@length name)) in E. rewrite Hab, !app_length in E. cbn in E. lia.
+  unfold tr_archive_mode, tr_json, tr_json_names, tr_pipeline. intro Ha. apply andb_true_iff in Ha as [Hp Ho].
+  apply negb_true_iff in Ho. apply N.leb_le in Hp. destruct proto_order_src_ok as [H1 H2]. apply N.leb_le in H1, H2.
+  split; [exact Ho|]. assert (Hj : (Consts.tr_proto_json_names <=? tc_proto c) = true) by (apply N.leb_le; lia).
+  rewrite Hj. split; [reflexivity|]. split; [reflexivity|]. apply N.leb_le. lia.
 Qed.
 
-Lemma inv_step st done e ln st' :
-  Inv st done ->
-  (tc_overwrite c = true -> forall e' ln', In (e', ln') done -> tr_key c e' :: tr_tail c e' <> tr_key c e :: tr_tail c e) ->
-  (tc_overwrite c = false -> tr_json c = true -> forall e' ln', In (e', ln') done -> te_id e' = te_id e ->
-     tl (te_rel e') <> tl (te_rel e)) ->
-  (tc_overwrite c = false -> tr_json c = true -> (forall e' ln', In (e', ln') done -> te_id e' <> te_id e) ->
-     tl (te_rel e) = []) ->
-  tr_spec_entry c d e st = Some (ln, st') ->
-  Inv st' (done ++ [(e, ln)]).
+Lemma is_prefix_longer (d : path) ln a b : d = a ++ b -> is_prefix (d ++ [ln]) a = false.
 Proof.
-  intros (Hc & Hmg & Hmono & Hcont & Hkey & Hfresh & Hmap) Dow Did Dfirst Hs.
-  (* unfold the specification: one creation with the final content *)
-  unfold tr_spec_entry in Hs. destruct (te_isdir e && negb (tr_json c)) eqn:E0; [discriminate|].
-  destruct (tr_create c d (tr_payload c e) [] st) as [[l1|] st1] eqn:E1; [|discriminate].
-  assert (Ha : tr_p_archive (tr_payload c e) = false) by (unfold tr_payload; destruct (tr_json c); reflexivity).
-  assert (Hisdir : tr_p_isdir (tr_payload c e) = te_isdir e).
-  { unfold tr_payload. destruct (tr_json c); cbn [tr_p_isdir s_isdir]; [reflexivity|]. destruct (te_isdir e); [discriminate | reflexivity]. }
-  destruct (tr_create_result _ _ _ _ _ _ _ Ha Hmg E1) as (G1 & M1 & T1 & L1 & P1 & N1 & I1).
-  assert (Hfin : exists x, tr_create c d (tr_payload c e) x st = (NOk ln, st') /\ l1 = ln /\
-            (te_isdir e = false -> x = te_data e /\
-               (tr_json_names c = true -> old_content (st_fs st) (d ++ ln :: tr_tail c e) = []))).
-  { destruct (te_isdir e) eqn:Hd.
-    - inversion Hs; subst. exists []. split; [exact E1|]. split; [reflexivity|]. discriminate.
-    - destruct (tr_json_names c && (0 <? tr_target_size d l1 (tr_payload c e) st1)) eqn:E2; [discriminate|].
-      destruct (tr_create c d (tr_payload c e) (te_data e) st) as [[l2|] st2] eqn:E3; [|discriminate].
-      inversion Hs; subst. destruct (I1 (te_data e)) as (st3 & E4). rewrite E3 in E4. inversion E4; subst.
-      exists (te_data e). split; [exact E3|]. split; [reflexivity|]. intros _. split; [reflexivity|].
-      intro Ej. rewrite Ej in E2. cbn [andb] in E2. apply N.ltb_ge in E2. apply N.le_0_r in E2.
-      unfold tr_target_size, tr_leaf in E2. rewrite join_good in E2 by (constructor; assumption).
-      fold (tr_tail c e) in E2, L1. rewrite L1, Hisdir, Ej in E2. cbn [write0 app skipn length] in E2.
-      unfold tr_blen in E2. destruct (old_content (st_fs st) (d ++ ln :: tr_tail c e)); [reflexivity | discriminate]. }
-  destruct Hfin as (x & Ex & -> & Hx). clear E1 G1 M1 T1 L1 P1 N1 I1 st1 Hs.
-  destruct (tr_create_result _ _ _ _ _ _ _ Ha Hmg Ex) as (G & M & T & L & P & Nc & _).
-  fold (tr_tail c e) in L, P, T. rewrite Hisdir in L.
-  set (leaf := d ++ ln :: tr_tail c e) in *.
-  (* the node at the leaf *)
-  assert (Hleaf : lookup (st_fs st') leaf = Some (tr_node e)).
-  { rewrite L. unfold tr_node. destruct (te_isdir e); [reflexivity|]. destruct (Hx eq_refl) as (-> & Ho).
-    destruct (tr_json_names c); [rewrite (Ho eq_refl)|]; rewrite write0_nil_l; reflexivity. }
-  (* presence is monotone *)
-  assert (Hpres : forall q, lookup (st_fs st) q <> None -> lookup (st_fs st') q <> None).
-  { intros q Hq. destruct (path_eq_dec q leaf) as [->|Hne]; [rewrite Hleaf; discriminate | rewrite P; assumption]. }
-  (* the new leaf differs from every earlier one *)
-  assert (Hdist : forall e' ln', In (e', ln') done -> d ++ ln' :: tr_tail c e' <> leaf).
-  { intros e' ln' Hin Heq. subst leaf. apply path_cons_inj in Heq as [-> Ht].
-    unfold name_choice in Nc. cbn [tr_names_cfg overwrite] in Nc.
-    destruct (tc_overwrite c) eqn:Eo.
-    - destruct Nc as [Hl _]. apply (Dow eq_refl e' ln Hin). rewrite <- (Hkey eq_refl e' ln Hin), Ht. fold (tr_key c e) in Hl. congruence.
-    - destruct (tr_json c) eqn:Ej.
-      + rewrite (pid_json e Ej) in Nc. destruct (Hmap eq_refl eq_refl) as (Hm1 & Hm2 & Hm3).
-        destruct (map_get (st_map st) (te_id e)) as [v|] eqn:Em.
-        * destruct Nc as [-> _]. pose proof (Hm1 e' v Hin) as Hm'.
-          assert (Hid : te_id e' = te_id e) by (apply (Hm3 _ _ v); assumption).
-          apply (Did eq_refl eq_refl e' v Hin Hid). rewrite <- !tail_json by assumption. exact Ht.
-        * destruct Nc as [Hs _]. apply (stat_notexist_lookup _ _ _ Hc) in Hs.
-          destruct (Hm2 _ _ (Hm1 e' ln Hin)) as [Hp _]. congruence.
-      + rewrite (pid_plain e Ej) in Nc. destruct Nc as [Hs _]. apply (stat_notexist_lookup _ _ _ Hc) in Hs.
-        destruct (Hfresh eq_refl e' ln Hin) as [_ Hp]. congruence. }
-  unfold Inv. split; [|split; [exact M|split; [intros q Hq; apply Hpres, Hmono, Hq|]]].
-  { intros a b Hab. pose proof (Hc a b Hab) as Hg. unfold get in Hg |- *. destruct a as [|x0 a]; [reflexivity|].
-    rewrite P; [exact Hg | congruence | apply (chain_not_leaf (st_fs st) ln (tr_tail c e) _ b Hc Hab)]. }
-  split.
-  { intros e' ln' Hin. apply in_app_or in Hin as [Hin|[Hin|[]]].
-    - rewrite P; [apply Hcont; exact Hin | rewrite (Hcont _ _ Hin); discriminate | apply (Hdist _ _ Hin)].
-    - inversion Hin; subst. exact Hleaf. }
-  unfold name_choice in Nc. cbn [tr_names_cfg overwrite] in Nc.
-  split.
-  { intros Eo e' ln' Hin. apply in_app_or in Hin as [Hin|[Hin|[]]]; [apply (Hkey Eo _ _ Hin)|].
-    inversion Hin; subst. rewrite Eo in Nc. destruct Nc as [-> _]. reflexivity. }
-  (* freshness of the new name with respect to the initial file system, and its presence now *)
-  assert (Hnew : tc_overwrite c = false -> lookup f0 (d ++ [ln]) = None /\ lookup (st_fs st') (d ++ [ln]) <> None).
-  { intro Eo. rewrite Eo in Nc. destruct (tr_json c) eqn:Ej.
-    - rewrite (pid_json e Ej) in Nc. destruct (Hmap Eo eq_refl) as (Hm1 & Hm2 & Hm3).
-      destruct (map_get (st_map st) (te_id e)) as [v|] eqn:Em.
-      + destruct Nc as [-> _]. destruct (Hm2 _ _ Em) as [Hp Hf]. split; [exact Hf | apply Hpres, Hp].
-      + destruct Nc as [Hs _]. apply (stat_notexist_lookup _ _ _ Hc) in Hs. split.
-        * destruct (lookup f0 (d ++ [ln])) eqn:El; [|reflexivity]. exfalso. apply (Hmono (d ++ [ln])); [rewrite El; discriminate | exact Hs].
-        * assert (Hnone : forall e' ln', In (e', ln') done -> te_id e' <> te_id e).
-          { intros e' ln' Hin Hid. rewrite <- Hid, (Hm1 _ _ Hin) in Em. discriminate. }
-          pose proof (Dfirst Eo eq_refl Hnone) as Ht. rewrite <- (tail_json e Ej) in Ht.
-          subst leaf. rewrite Ht in Hleaf. rewrite Hleaf. discriminate.
-    - rewrite (pid_plain e Ej) in Nc. destruct Nc as [Hs _]. apply (stat_notexist_lookup _ _ _ Hc) in Hs. split.
-      + destruct (lookup f0 (d ++ [ln])) eqn:El; [|reflexivity]. exfalso. apply (Hmono (d ++ [ln])); [rewrite El; discriminate | exact Hs].
-      + subst leaf. rewrite (tail_plain e Ej) in Hleaf. rewrite Hleaf. discriminate. }
-  split.
-  { intros Eo e' ln' Hin. apply in_app_or in Hin as [Hin|[Hin|[]]].
-    - destruct (Hfresh Eo _ _ Hin) as [A B]. split; [exact A | apply Hpres, B].
-    - inversion Hin; subst. apply Hnew, Eo. }
-  intros Eo Ej. rewrite Eo, (pid_json e Ej) in Nc. destruct (Hmap Eo Ej) as (Hm1 & Hm2 & Hm3).
-  destruct (map_get (st_map st) (te_id e)) as [v|] eqn:Em.
-  - destruct Nc as [-> Es]. rewrite Es. split; [|split; [|exact Hm3]].
-    + intros e' ln' Hin. apply in_app_or in Hin as [Hin|[Hin|[]]]; [apply (Hm1 _ _ Hin)|]. inversion Hin; subst. exact Em.
-    + intros id v' Hv. destruct (Hm2 _ _ Hv) as [A B]. split; [apply Hpres, A | exact B].
-  - destruct Nc as [Hs Es]. rewrite Es. destruct (Hnew Eo) as [Hn1 Hn2].
-    assert (Hold : forall id v', map_get (st_map st) id = Some v' -> v' <> ln).
-    { intros id v' Hv ->. destruct (Hm2 _ _ Hv) as [A _]. apply (stat_notexist_lookup _ _ _ Hc) in Hs. congruence. }
-    split; [|split].
-    + intros e' ln' Hin. cbn [map_get]. apply in_app_or in Hin as [Hin|[Hin|[]]].
-      * destruct (Z.eqb (te_id e) (te_id e')) eqn:Ez; [|apply (Hm1 _ _ Hin)].
-        apply Z.eqb_eq in Ez. rewrite Ez, (Hm1 _ _ Hin) in Em. discriminate.
-      * inversion Hin; subst. rewrite Z.eqb_refl. reflexivity.
-    + intros id v'. cbn [map_get]. destruct (Z.eqb (te_id e) id).
-      * intro Hv; inversion Hv; subst. split; assumption.
-      * intro Hv. destruct (Hm2 _ _ Hv) as [A B]. split; [apply Hpres, A | exact B].
-    + intros id1 id2 v'. cbn [map_get]. destruct (Z.eqb (te_id e) id1) eqn:Z1; destruct (Z.eqb (te_id e) id2) eqn:Z2.
-      * apply Z.eqb_eq in Z1, Z2. congruence.
-      * intros Hv1 Hv2. inversion Hv1; subst. exfalso. apply (Hold _ _ Hv2). reflexivity.
-      * intros Hv1 Hv2. inversion Hv2; subst. exfalso. apply (Hold _ _ Hv1). reflexivity.
-      * apply Hm3.
+  intro Hab. destruct (is_prefix (d ++ [ln]) a) eqn:E; [|reflexivity]. apply is_prefix_spec in E as (r & Hr).
+  apply (f_equal (@length name)) in Hr. rewrite Hab, !app_length in Hr. cbn in Hr. lia.
 Qed.
 
-Lemma nodup_mid {A B} (f : A -> B) pre e post : NoDup (map f (pre ++ e :: post)) -> forall a, In a pre -> f a <> f e.
+Lemma is_prefix_top (d : path) ln ln' tail : ln' <> ln -> is_prefix (d ++ [ln]) (d ++ ln' :: tail) = false.
 Proof.
-  rewrite map_app. cbn [map]. intros Hn a Ha Heq. apply NoDup_remove_2 in Hn. apply Hn.
-  apply in_or_app. left. rewrite <- Heq. apply in_map. exact Ha.
-Qed.
-
-Lemma spec_inv : forall es done st names per all stf,
-  Inv st done -> tr_wf c (map fst done ++ es) ->
-  tr_spec c d es st names = Some (per, all, stf) ->
-  Inv stf (done ++ combine es per) /\ length per = length es /\ all = fold_left tr_add_name per names.
-Proof.
-  induction es as [|e es IH]; intros done st names per all stf HI Hwf Hs.
-  - cbn in Hs. inversion Hs; subst. cbn. rewrite app_nil_r. auto.
-  - cbn [tr_spec] in Hs. destruct (tr_spec_entry c d e st) as [[ln st1]|] eqn:Ee; [|discriminate].
-    destruct (tr_spec c d es st1 (tr_add_name names ln)) as [[[per' all'] stf']|] eqn:Er; [|discriminate].
-    inversion Hs; subst.
-    assert (HI1 : Inv st1 (done ++ [(e, ln)])).
-    { apply (inv_step st done e ln st1 HI); [| | | exact Ee].
-      - intros Eo e' ln' Hin. destruct Hwf as [_ Hw]. specialize (Hw Eo).
-        apply (nodup_mid _ _ _ _ Hw e'). apply in_map_iff. exists (e', ln'). auto.
-      - intros Eo Ej e' ln' Hin Hid Ht. destruct Hwf as [Hw _]. destruct (Hw Eo Ej) as [Hn _].
-        apply (nodup_mid _ _ _ _ Hn e'); [apply in_map_iff; exists (e', ln'); auto | congruence].
-      - intros Eo Ej Hnone. destruct Hwf as [Hw _]. destruct (Hw Eo Ej) as [_ Hf].
-        destruct (tl (te_rel e)) eqn:Et; [reflexivity|]. exfalso.
-        destruct (Hf (map fst done) e es eq_refl) as (e' & Hin & Hid); [rewrite Et; discriminate|].
-        apply in_map_iff in Hin as ([e'' ln''] & <- & Hin). apply (Hnone _ _ Hin Hid). }
-    assert (Hwf1 : tr_wf c (map fst (done ++ [(e, ln)]) ++ es)).
-    { rewrite map_app, <- app_assoc. exact Hwf. }
-    destruct (IH _ _ _ _ _ _ HI1 Hwf1 Er) as (A & B & C).
-    rewrite <- app_assoc in A. cbn [combine length fold_left]. split; [exact A|]. split; [congruence | exact C].
-Qed.
-
-Lemma inv_init : stat f0 d = SFound Dir -> Inv (init_state f0) [].
-Proof.
-  intro Hd. unfold Inv. cbn [init_state st_fs st_map].
-  split; [apply stat_dir_chain, Hd|]. split; [intros id v Hv; discriminate Hv|]. split; [auto|].
-  split; [intros ? ? Hf; destruct Hf|]. split; [intros _ ? ? Hf; destruct Hf|]. split; [intros _ ? ? Hf; destruct Hf|].
-  intros _ _. split; [intros ? ? Hf; destruct Hf|]. split; intros; discriminate.
-Qed.
-
-Theorem spec_tree es per all stf : stat f0 d = SFound Dir -> tr_wf c es ->
-  tr_spec c d es (init_state f0) [] = Some (per, all, stf) ->
-  length per = length es /\ all = fold_left tr_add_name per [] /\
-  (forall e ln, In (e, ln) (combine es per) -> lookup (st_fs stf) (d ++ ln :: tr_tail c e) = Some (tr_node e)) /\
-  (tc_overwrite c = true -> forall e ln, In (e, ln) (combine es per) -> ln = tr_key c e) /\
-  (tc_overwrite c = false -> forall e ln, In (e, ln) (combine es per) ->
-     lookup f0 (d ++ [ln]) = None /\ lookup (st_fs stf) (d ++ [ln]) <> None) /\
-  (forall q, lookup f0 q <> None -> lookup (st_fs stf) q <> None).
-Proof.
-  intros Hd Hwf Hs. destruct (spec_inv es [] _ _ _ _ _ (inv_init Hd) Hwf Hs) as ((_ & _ & Hmono & Hcont & Hkey & Hfresh & _) & Hl & Ha).
-  cbn [app] in *. auto 10.
+  intro Hne. destruct (is_prefix (d ++ [ln]) (d ++ ln' :: tail)) eqn:E; [|reflexivity]. apply is_prefix_spec in E as (r & Hr).
+  rewrite <- app_assoc in Hr. apply app_inv_head in Hr. inversion Hr. congruence.
 Qed.
 
 (* the deduplicated list names exactly the per-entry names *)
@@ -543,6 +390,348 @@ Proof.
   apply existsb_exists. exists n. split; [exact Hin | apply list_eqb_refl].
 Qed.
 
+Section Tree.
+Variable hx : list byte -> Resume.digest.
+Variable ahdr : src -> Z -> list byte.
+Variable aparse : list byte -> option (src * Z).
+Variable c : tr_cfg.
+Variable d : path.
+Variable f0 : fs.
+
+Notation spec_entry := (tr_spec_entry hx ahdr aparse c d).
+Notation spec := (tr_spec hx ahdr aparse c d).
+
+Lemma tail_json e : tr_json c = true -> tr_tail c e = tl (te_rel e).
+Proof. unfold tr_tail, tr_payload. intros ->. reflexivity. Qed.
+Lemma tail_plain e : tr_json c = false -> tr_tail c e = [].
+Proof. unfold tr_tail, tr_payload. intros ->. reflexivity. Qed.
+Lemma pid_json e : tr_json c = true -> tr_p_id (tr_payload c e) = Some (te_id e).
+Proof. unfold tr_payload. intros ->. reflexivity. Qed.
+Lemma pid_plain e : tr_json c = false -> tr_p_id (tr_payload c e) = None.
+Proof. unfold tr_payload. intros ->. reflexivity. Qed.
+
+Lemma payload_archive_subs e : tr_p_archive (tr_payload c e) = true -> te_subs e <> [].
+Proof.
+  unfold tr_payload. destruct (tr_json c); cbn [tr_p_archive s_archive]; [|discriminate].
+  unfold tr_has_subs. destruct (te_subs e); [discriminate | discriminate].
+Qed.
+
+Definition Inv (st : state) (done : list (tr_entry * name)) : Prop :=
+  chain (st_fs st) d /\ map_good (st_map st) /\
+  (forall q, lookup f0 q <> None -> lookup (st_fs st) q <> None) /\
+  (forall e ln, In (e, ln) done -> lookup (st_fs st) (d ++ ln :: tr_tail c e) = Some (tr_node e)) /\
+  (tc_overwrite c = true -> forall e ln, In (e, ln) done -> ln = tr_key c e) /\
+  (tc_overwrite c = false -> forall e ln, In (e, ln) done ->
+     lookup f0 (d ++ [ln]) = None /\ lookup (st_fs st) (d ++ [ln]) <> None) /\
+  (tc_overwrite c = false -> tr_json c = true ->
+     (forall e ln, In (e, ln) done -> map_get (st_map st) (te_id e) = Some ln) /\
+     (forall id v, map_get (st_map st) id = Some v ->
+        lookup (st_fs st) (d ++ [v]) <> None /\ lookup f0 (d ++ [v]) = None) /\
+     (forall id1 id2 v, map_get (st_map st) id1 = Some v -> map_get (st_map st) id2 = Some v -> id1 = id2)) /\
+  (* the SubFiles of the archives received so far *)
+  (forall e ln, In (e, ln) done -> forall s, In s (te_subs e) -> lookup (st_fs st) (d ++ ln :: tr_tail c s) = Some (tr_node s)).
+
+Lemma path_cons_inj (a : path) x1 t1 x2 t2 : a ++ x1 :: t1 = a ++ x2 :: t2 -> x1 = x2 /\ t1 = t2.
+Proof. intro E. apply app_inv_head in E. inversion E. auto. Qed.
+
+Lemma chain_not_leaf f ln tail a b : chain f d -> d = a ++ b -> a <> d ++ ln :: tail.
+Proof.
+  intros _ Hab E. apply (f_equal (@length name)) in E. rewrite Hab, !app_length in E. cbn in E. lia.
+Qed.
+
+(* the premise about the prefix digests, for the file an entry meets (if it meets one) *)
+Notation coll_ok := (tr_coll_ok hx c d).
+
+(* what one accepted entry does to the state, whichever of the four ways it is received *)
+Lemma spec_entry_effect st e sc ln st' : map_good (st_map st) ->
+  (te_subs e <> [] -> tr_archive_mode c = true /\ tr_subs_wf e /\ tl (te_rel e) = []) ->
+  (forall s, In s (te_subs e) -> tr_hdr_ok1 ahdr aparse s) -> coll_ok e st ->
+  spec_entry e sc st = Some (ln, st') ->
+  let leaf := d ++ ln :: tr_tail c e in
+  good ln /\ map_good (st_map st') /\
+  lookup (st_fs st') leaf = Some (tr_node e) /\
+  (forall q, lookup (st_fs st) q <> None ->
+     (if tr_has_subs e then is_prefix (d ++ [ln]) q = false else q <> leaf) -> lookup (st_fs st') q = lookup (st_fs st) q) /\
+  (forall q, lookup (st_fs st) q <> None -> lookup (st_fs st') q <> None) /\
+  name_choice (tr_names_cfg c) d st st' (tr_p_id (tr_payload c e)) (tr_p_head (tr_payload c e)) ln /\
+  (forall s, In s (te_subs e) -> lookup (st_fs st') (d ++ ln :: tr_tail c s) = Some (tr_node s)).
+Proof.
+  intros Hmg Dsub Dhdr Dcoll Hs. cbv zeta.
+  unfold tr_spec_entry in Hs. destruct (te_isdir e && negb (tr_json c)) eqn:E0; [discriminate|].
+  destruct (tr_create c d (tr_payload c e) [] st) as [[l1|] st1] eqn:E1; [|discriminate].
+  assert (Hisdir : tr_p_isdir (tr_payload c e) = te_isdir e).
+  { unfold tr_payload. destruct (tr_json c); cbn [tr_p_isdir s_isdir]; [reflexivity|]. destruct (te_isdir e); [discriminate | reflexivity]. }
+  destruct (tr_create_result _ _ _ _ _ _ _ Hmg E1) as (G1 & M1 & T1 & L1 & P1 & N1 & I1 & A1).
+  fold (tr_tail c e) in L1, P1, T1. rewrite Hisdir in L1, A1.
+  (* presence after the first creation *)
+  assert (Hpres1 : forall q, lookup (st_fs st) q <> None -> lookup (st_fs st1) q <> None).
+  { intros q Hq. destruct (path_eq_dec q (d ++ l1 :: tr_tail c e)) as [->|Hne]; [rewrite L1; discriminate | rewrite P1; assumption]. }
+  assert (Hnc : forall st2, st_map st2 = st_map st1 ->
+            name_choice (tr_names_cfg c) d st st2 (tr_p_id (tr_payload c e)) (tr_p_head (tr_payload c e)) l1).
+  { intros st2 E2. unfold name_choice in *. destruct (overwrite (tr_names_cfg c)); [rewrite E2; exact N1|].
+    destruct (tr_p_id (tr_payload c e)) as [i|]; [|rewrite E2; exact N1].
+    destruct (map_get (st_map st) i); rewrite E2; exact N1. }
+  destruct (tr_has_subs e) eqn:Hsub.
+  - (* an archive: the writer's tree below the new directory *)
+    assert (Hne : te_subs e <> []) by (unfold tr_has_subs in Hsub; destruct (te_subs e); discriminate).
+    destruct (Dsub Hne) as (Ham & Hwf & Htl). destruct (archive_mode_facts c Ham) as (_ & _ & Hj & _).
+    destruct (arch_entry_ok ahdr e sc) as (f & Ef & Hdata & _). rewrite Ef in Hs.
+    destruct (unarchive_ok ahdr aparse e sc Hwf Dhdr) as (t & Et & Ht). rewrite Hdata, Et in Hs.
+    inversion Hs; subst l1 st'. clear Hs.
+    assert (Htail : tr_tail c e = []) by (rewrite (tail_json e Hj); exact Htl).
+    rewrite Htail in *. unfold tr_graft_st. rewrite set_fs_fs, set_fs_map.
+    assert (Hd : te_isdir e = true).
+    { apply A1. unfold tr_payload. rewrite Hj. cbn [tr_p_archive s_archive]. exact Hsub. }
+    split; [exact G1|]. split; [exact M1|].
+    split; [rewrite (graft_root _ _ e t Ht); unfold tr_node; rewrite Hd; reflexivity|].
+    split.
+    { intros q Hq Hnp. rewrite graft_lookup_out by exact Hnp. apply P1; [exact Hq|]. intros ->.
+      pose proof (is_prefix_app (d ++ [ln]) []) as Hx. rewrite app_nil_r in Hx. congruence. }
+    split; [intros q Hq; apply graft_present, Hpres1, Hq|].
+    split; [apply Hnc; reflexivity|].
+    intros s Hin. rewrite (tail_json s Hj).
+    change (d ++ ln :: tl (te_rel s)) with (d ++ [ln] ++ tl (te_rel s)). rewrite app_assoc.
+    apply (graft_member _ _ e s t Hwf Hin Ht).
+  - assert (Hnil : te_subs e = []) by (unfold tr_has_subs in Hsub; destruct (te_subs e); [reflexivity | discriminate]).
+    assert (Hnosub : forall (P : tr_entry -> Prop) s, In s (te_subs e) -> P s) by (intros P s Hf; rewrite Hnil in Hf; destruct Hf).
+    destruct (te_isdir e) eqn:Hd.
+    + (* a directory *)
+      inversion Hs; subst l1 st'. clear Hs.
+      split; [exact G1|]. split; [exact M1|]. split; [rewrite L1; unfold tr_node; rewrite Hd; reflexivity|].
+      split; [intros q Hq Hne; apply P1; assumption|]. split; [exact Hpres1|]. split; [apply Hnc; reflexivity | apply Hnosub].
+    + destruct (tr_json_names c && (0 <? tr_target_size d l1 (tr_payload c e) st1)) eqn:E2.
+      * (* resumed: the rest of the source behind the agreed offset; no collision: it IS the source *)
+        apply andb_true_iff in E2 as [Ej E2].
+        pose proof (Dcoll l1 st1 E1) as Dc. unfold tr_no_collision in Dc |- *.
+        unfold tr_target_size, tr_leaf in E2. unfold tr_leaf in Hs, Dc. fold (tr_tail c e) in E2, Hs, Dc.
+        rewrite join_good in E2, Hs, Dc by (constructor; assumption).
+        set (leaf := d ++ l1 :: tr_tail c e) in *.
+        assert (Hold : tr_old_content st1 leaf <> []).
+        { unfold tr_old_content. destruct (lookup (st_fs st1) leaf) as [[old|]|]; try discriminate.
+          destruct old; [discriminate | discriminate]. }
+        destruct (tr_resume_run hx c e sc (tr_old_content st1 leaf)) as [o| | | |] eqn:Er; try discriminate.
+        inversion Hs; subst l1 st'. clear Hs.
+        rewrite (resume_final_identical hx c e sc _ o (Dc Hold) Er).
+        split; [exact G1|]. split; [rewrite set_file_map; exact M1|].
+        split; [rewrite set_file_lookup, path_eqb_refl; unfold tr_node; rewrite Hd; reflexivity|].
+        split.
+        { intros q Hq Hne. cbv beta iota in Hne. rewrite set_file_lookup. destruct (path_eqb leaf q) eqn:Eq; [apply path_eqb_eq in Eq; exfalso; apply Hne; symmetry; exact Eq|].
+          apply P1; assumption. }
+        split.
+        { intros q Hq. rewrite set_file_lookup. destruct (path_eqb leaf q); [discriminate | apply Hpres1, Hq]. }
+        split; [apply Hnc; apply set_file_map | apply Hnosub].
+      * (* a plain file: one creation with the content *)
+        destruct (tr_create c d (tr_payload c e) (te_data e) st) as [[l2|] st2] eqn:E3; [|discriminate].
+        inversion Hs; subst l1 st2. clear Hs. destruct (I1 (te_data e)) as (st3 & E4). rewrite E3 in E4. inversion E4; subst l2 st3.
+        destruct (tr_create_result _ _ _ _ _ _ _ Hmg E3) as (G & M & T & L & P & Nc & _ & _).
+        fold (tr_tail c e) in L, P. rewrite Hisdir in L.
+        split; [exact G|]. split; [exact M|].
+        split.
+        { rewrite L. unfold tr_node. rewrite Hd. destruct (tr_json_names c) eqn:Ej; [|rewrite write0_nil_l; reflexivity].
+          cbn [andb] in E2. apply N.ltb_ge in E2. apply N.le_0_r in E2.
+          unfold tr_target_size, tr_leaf in E2. fold (tr_tail c e) in E2. rewrite join_good in E2 by (constructor; assumption).
+          rewrite L1 in E2. cbn [write0 app skipn length] in E2.
+          unfold tr_blen in E2. destruct (old_content (st_fs st) (d ++ ln :: tr_tail c e)); [rewrite write0_nil_l; reflexivity | discriminate]. }
+        split; [intros q Hq Hne; apply P; assumption|].
+        split.
+        { intros q Hq. destruct (path_eq_dec q (d ++ ln :: tr_tail c e)) as [->|Hne]; [rewrite L; discriminate | rewrite P; assumption]. }
+        split; [exact Nc | apply Hnosub].
+Qed.
+
+Lemma inv_step st done e sc ln st' :
+  Inv st done ->
+  (tc_overwrite c = true -> forall e' ln', In (e', ln') done -> tr_key c e' :: tr_tail c e' <> tr_key c e :: tr_tail c e) ->
+  (tc_overwrite c = false -> tr_json c = true -> forall e' ln', In (e', ln') done -> te_id e' = te_id e ->
+     tl (te_rel e') <> tl (te_rel e)) ->
+  (tc_overwrite c = false -> tr_json c = true -> (forall e' ln', In (e', ln') done -> te_id e' <> te_id e) ->
+     tl (te_rel e) = []) ->
+  (tr_archive_mode c = true -> forall e' ln', In (e', ln') done -> te_id e' <> te_id e) ->
+  (forall e' ln', In (e', ln') done -> te_subs e' <> [] -> tr_archive_mode c = true) ->
+  (te_subs e <> [] -> tr_archive_mode c = true /\ tr_subs_wf e) ->
+  (forall s, In s (te_subs e) -> tr_hdr_ok1 ahdr aparse s) -> coll_ok e st ->
+  spec_entry e sc st = Some (ln, st') ->
+  Inv st' (done ++ [(e, ln)]).
+Proof.
+  intros (Hc & Hmg & Hmono & Hcont & Hkey & Hfresh & Hmap & Hsubs) Dow Did Dfirst Darch Ddone Dsub Dhdr Dcoll Hs.
+  assert (Dsub' : te_subs e <> [] -> tr_archive_mode c = true /\ tr_subs_wf e /\ tl (te_rel e) = []).
+  { intro Hne. destruct (Dsub Hne) as [Ham Hwf]. split; [exact Ham|]. split; [exact Hwf|].
+    destruct (archive_mode_facts c Ham) as (Eo & _ & Ej & _). apply (Dfirst Eo Ej). apply (Darch Ham). }
+  destruct (spec_entry_effect st e sc ln st' Hmg Dsub' Dhdr Dcoll Hs) as (G & M & Hleaf & P & Hpres & Nc & Hnew).
+  set (leaf := d ++ ln :: tr_tail c e) in *.
+  (* the new leaf differs from every earlier one *)
+  assert (Hdist : forall e' ln', In (e', ln') done -> d ++ ln' :: tr_tail c e' <> leaf).
+  { intros e' ln' Hin Heq. subst leaf. apply path_cons_inj in Heq as [-> Ht].
+    unfold name_choice in Nc. cbn [tr_names_cfg overwrite] in Nc.
+    destruct (tc_overwrite c) eqn:Eo.
+    - destruct Nc as [Hl _]. apply (Dow eq_refl e' ln Hin). rewrite <- (Hkey eq_refl e' ln Hin), Ht. fold (tr_key c e) in Hl. congruence.
+    - destruct (tr_json c) eqn:Ej.
+      + rewrite (pid_json e Ej) in Nc. destruct (Hmap eq_refl eq_refl) as (Hm1 & Hm2 & Hm3).
+        destruct (map_get (st_map st) (te_id e)) as [v|] eqn:Em.
+        * destruct Nc as [-> _]. pose proof (Hm1 e' v Hin) as Hm'.
+          assert (Hid : te_id e' = te_id e) by (apply (Hm3 _ _ v); assumption).
+          apply (Did eq_refl eq_refl e' v Hin Hid). rewrite <- !tail_json by assumption. exact Ht.
+        * destruct Nc as [Hs' _]. apply (stat_notexist_lookup _ _ _ Hc) in Hs'.
+          destruct (Hm2 _ _ (Hm1 e' ln Hin)) as [Hp _]. congruence.
+      + rewrite (pid_plain e Ej) in Nc. destruct Nc as [Hs' _]. apply (stat_notexist_lookup _ _ _ Hc) in Hs'.
+        destruct (Hfresh eq_refl e' ln Hin) as [_ Hp]. congruence. }
+  (* in archive mode every item has its own top-level name *)
+  assert (Hnames : tr_archive_mode c = true -> forall e' ln', In (e', ln') done -> ln' <> ln).
+  { intros Ham e' ln' Hin ->. destruct (archive_mode_facts c Ham) as (Eo & _ & Ej & _).
+    unfold name_choice in Nc. cbn [tr_names_cfg overwrite] in Nc. rewrite Eo, (pid_json e Ej) in Nc.
+    destruct (Hmap Eo Ej) as (Hm1 & Hm2 & Hm3).
+    destruct (map_get (st_map st) (te_id e)) as [v|] eqn:Em.
+    - destruct Nc as [-> _]. apply (Darch Ham e' v Hin). apply (Hm3 _ _ v); [apply Hm1, Hin | exact Em].
+    - destruct Nc as [Hs' _]. apply (stat_notexist_lookup _ _ _ Hc) in Hs'.
+      destruct (Hfresh Eo e' ln Hin) as [_ Hp]. congruence. }
+  (* an earlier path below an earlier name is not touched *)
+  assert (Hkeep : forall e' ln' tail, In (e', ln') done -> (te_subs e <> [] \/ te_subs e' <> []) \/ d ++ ln' :: tail <> leaf ->
+            lookup (st_fs st) (d ++ ln' :: tail) <> None -> lookup (st_fs st') (d ++ ln' :: tail) = lookup (st_fs st) (d ++ ln' :: tail)).
+  { intros e' ln' tail Hin Hwhy Hq. apply P; [exact Hq|].
+    assert (Hcase : (tr_archive_mode c = true /\ ln' <> ln) \/ (tr_has_subs e = false /\ d ++ ln' :: tail <> leaf)).
+    { destruct Hwhy as [[Hne|Hne]|Hne].
+      - left. destruct (Dsub Hne) as [Ham _]. split; [exact Ham | apply (Hnames Ham e' ln' Hin)].
+      - left. pose proof (Ddone e' ln' Hin Hne) as Ham. split; [exact Ham | apply (Hnames Ham e' ln' Hin)].
+      - destruct (tr_has_subs e) eqn:Hsub; [|right; split; [reflexivity | exact Hne]].
+        left. assert (Hne' : te_subs e <> []) by (unfold tr_has_subs in Hsub; destruct (te_subs e); discriminate).
+        destruct (Dsub Hne') as [Ham _]. split; [exact Ham | apply (Hnames Ham e' ln' Hin)]. }
+    destruct Hcase as [[Ham Hnl]|[Hsub Hne]].
+    - destruct (tr_has_subs e); [apply is_prefix_top; exact Hnl|]. intros Heq. subst leaf. apply path_cons_inj in Heq as [Hx _]. congruence.
+    - rewrite Hsub. exact Hne. }
+  unfold Inv. split; [|split; [exact M|split; [intros q Hq; apply Hpres, Hmono, Hq|]]].
+  { intros a b Hab. pose proof (Hc a b Hab) as Hg. unfold get in Hg |- *. destruct a as [|x0 a]; [reflexivity|].
+    rewrite P; [exact Hg | congruence|].
+    destruct (tr_has_subs e); [apply (is_prefix_longer d ln _ b Hab) | apply (chain_not_leaf (st_fs st) ln (tr_tail c e) _ b Hc Hab)]. }
+  split.
+  { intros e' ln' Hin. apply in_app_or in Hin as [Hin|[Hin|[]]].
+    - rewrite (Hkeep e' ln' _ Hin); [apply Hcont; exact Hin | right; apply (Hdist _ _ Hin) | rewrite (Hcont _ _ Hin); discriminate].
+    - inversion Hin; subst. exact Hleaf. }
+  unfold name_choice in Nc. cbn [tr_names_cfg overwrite] in Nc.
+  split.
+  { intros Eo e' ln' Hin. apply in_app_or in Hin as [Hin|[Hin|[]]]; [apply (Hkey Eo _ _ Hin)|].
+    inversion Hin; subst. rewrite Eo in Nc. destruct Nc as [-> _]. reflexivity. }
+  (* freshness of the new name with respect to the initial file system, and its presence now *)
+  assert (Hnewname : tc_overwrite c = false -> lookup f0 (d ++ [ln]) = None /\ lookup (st_fs st') (d ++ [ln]) <> None).
+  { intro Eo. rewrite Eo in Nc. destruct (tr_json c) eqn:Ej.
+    - rewrite (pid_json e Ej) in Nc. destruct (Hmap Eo eq_refl) as (Hm1 & Hm2 & Hm3).
+      destruct (map_get (st_map st) (te_id e)) as [v|] eqn:Em.
+      + destruct Nc as [-> _]. destruct (Hm2 _ _ Em) as [Hp Hf]. split; [exact Hf | apply Hpres, Hp].
+      + destruct Nc as [Hs' _]. apply (stat_notexist_lookup _ _ _ Hc) in Hs'. split.
+        * destruct (lookup f0 (d ++ [ln])) eqn:El; [|reflexivity]. exfalso. apply (Hmono (d ++ [ln])); [rewrite El; discriminate | exact Hs'].
+        * assert (Hnone : forall e' ln', In (e', ln') done -> te_id e' <> te_id e).
+          { intros e' ln' Hin Hid. rewrite <- Hid, (Hm1 _ _ Hin) in Em. discriminate. }
+          pose proof (Dfirst Eo eq_refl Hnone) as Ht. rewrite <- (tail_json e Ej) in Ht.
+          subst leaf. rewrite Ht in Hleaf. rewrite Hleaf. discriminate.
+    - rewrite (pid_plain e Ej) in Nc. destruct Nc as [Hs' _]. apply (stat_notexist_lookup _ _ _ Hc) in Hs'. split.
+      + destruct (lookup f0 (d ++ [ln])) eqn:El; [|reflexivity]. exfalso. apply (Hmono (d ++ [ln])); [rewrite El; discriminate | exact Hs'].
+      + subst leaf. rewrite (tail_plain e Ej) in Hleaf. rewrite Hleaf. discriminate. }
+  split.
+  { intros Eo e' ln' Hin. apply in_app_or in Hin as [Hin|[Hin|[]]].
+    - destruct (Hfresh Eo _ _ Hin) as [A B]. split; [exact A | apply Hpres, B].
+    - inversion Hin; subst. apply Hnewname, Eo. }
+  split.
+  { intros Eo Ej. rewrite Eo, (pid_json e Ej) in Nc. destruct (Hmap Eo Ej) as (Hm1 & Hm2 & Hm3).
+    destruct (map_get (st_map st) (te_id e)) as [v|] eqn:Em.
+    - destruct Nc as [-> Es]. rewrite Es. split; [|split; [|exact Hm3]].
+      + intros e' ln' Hin. apply in_app_or in Hin as [Hin|[Hin|[]]]; [apply (Hm1 _ _ Hin)|]. inversion Hin; subst. exact Em.
+      + intros id v' Hv. destruct (Hm2 _ _ Hv) as [A B]. split; [apply Hpres, A | exact B].
+    - destruct Nc as [Hs' Es]. rewrite Es. destruct (Hnewname Eo) as [Hn1 Hn2].
+      assert (Hold : forall id v', map_get (st_map st) id = Some v' -> v' <> ln).
+      { intros id v' Hv ->. destruct (Hm2 _ _ Hv) as [A _]. apply (stat_notexist_lookup _ _ _ Hc) in Hs'. congruence. }
+      split; [|split].
+      + intros e' ln' Hin. cbn [map_get]. apply in_app_or in Hin as [Hin|[Hin|[]]].
+        * destruct (Z.eqb (te_id e) (te_id e')) eqn:Ez; [|apply (Hm1 _ _ Hin)].
+          apply Z.eqb_eq in Ez. rewrite Ez, (Hm1 _ _ Hin) in Em. discriminate.
+        * inversion Hin; subst. rewrite Z.eqb_refl. reflexivity.
+      + intros id v'. cbn [map_get]. destruct (Z.eqb (te_id e) id).
+        * intro Hv; inversion Hv; subst. split; assumption.
+        * intro Hv. destruct (Hm2 _ _ Hv) as [A B]. split; [apply Hpres, A | exact B].
+      + intros id1 id2 v'. cbn [map_get]. destruct (Z.eqb (te_id e) id1) eqn:Z1; destruct (Z.eqb (te_id e) id2) eqn:Z2.
+        * apply Z.eqb_eq in Z1, Z2. congruence.
+        * intros Hv1 Hv2. inversion Hv1; subst. exfalso. apply (Hold _ _ Hv2). reflexivity.
+        * intros Hv1 Hv2. inversion Hv2; subst. exfalso. apply (Hold _ _ Hv1). reflexivity.
+        * apply Hm3. }
+  (* the SubFiles: those of the earlier archives are not touched, those of this one are there *)
+  intros e' ln' Hin s Hs'. apply in_app_or in Hin as [Hin|[Hin|[]]].
+  - assert (Hne : te_subs e' <> []) by (destruct (te_subs e'); [destruct Hs' | discriminate]).
+    rewrite (Hkeep e' ln' _ Hin); [apply (Hsubs _ _ Hin _ Hs') | left; right; exact Hne | rewrite (Hsubs _ _ Hin _ Hs'); discriminate].
+  - inversion Hin; subst. apply Hnew, Hs'.
+Qed.
+
+Lemma nodup_mid {A B} (f : A -> B) pre e post : NoDup (map f (pre ++ e :: post)) -> forall a, In a pre -> f a <> f e.
+Proof.
+  rewrite map_app. cbn [map]. intros Hn a Ha Heq. apply NoDup_remove_2 in Hn. apply Hn.
+  apply in_or_app. left. rewrite <- Heq. apply in_map. exact Ha.
+Qed.
+
+Notation resume_safe := (tr_resume_safe hx ahdr aparse c d).
+
+Lemma spec_inv : forall items done st names per all stf,
+  Inv st done -> tr_wf c (map fst done ++ map fst items) -> tr_hdrs_ok ahdr aparse (map fst items) ->
+  resume_safe items st ->
+  spec items st names = Some (per, all, stf) ->
+  Inv stf (done ++ combine (map fst items) per) /\ length per = length items /\ all = fold_left tr_add_name per names.
+Proof.
+  induction items as [|[e sc] es IH]; intros done st names per all stf HI Hwf Hh Hsafe Hs.
+  - cbn in Hs. inversion Hs; subst. cbn. rewrite app_nil_r. auto.
+  - cbn [tr_spec] in Hs. destruct (spec_entry e sc st) as [[ln st1]|] eqn:Ee; [|discriminate].
+    destruct (spec es st1 (tr_add_name names ln)) as [[[per' all'] stf']|] eqn:Er; [|discriminate].
+    inversion Hs; subst. cbn [map fst] in Hwf, Hh. cbn [tr_resume_safe] in Hsafe. rewrite Ee in Hsafe. destruct Hsafe as [Hcoll Hsafe].
+    assert (Hwf1 : tr_wf c (map fst (done ++ [(e, ln)]) ++ map fst es)).
+    { rewrite map_app, <- app_assoc. exact Hwf. }
+    destruct Hwf as (Hw1 & Hw2 & Hw3 & Hw4).
+    assert (HI1 : Inv st1 (done ++ [(e, ln)])).
+    { apply (inv_step st done e sc ln st1 HI); [| | | | | | |exact Hcoll|exact Ee].
+      - intros Eo e' ln' Hin. specialize (Hw2 Eo).
+        apply (nodup_mid _ _ _ _ Hw2 e'). apply in_map_iff. exists (e', ln'). auto.
+      - intros Eo Ej e' ln' Hin Hid Ht. destruct (Hw1 Eo Ej) as [Hn _].
+        apply (nodup_mid _ _ _ _ Hn e'); [apply in_map_iff; exists (e', ln'); auto | congruence].
+      - intros Eo Ej Hnone. destruct (Hw1 Eo Ej) as [_ Hf].
+        destruct (tl (te_rel e)) eqn:Et; [reflexivity|]. exfalso.
+        destruct (Hf (map fst done) e (map fst es) eq_refl) as (e' & Hin & Hid); [rewrite Et; discriminate|].
+        apply in_map_iff in Hin as ([e'' ln''] & <- & Hin). apply (Hnone _ _ Hin Hid).
+      - intros Ham e' ln' Hin. apply (nodup_mid _ _ _ _ (Hw4 Ham) e'). apply in_map_iff. exists (e', ln'). auto.
+      - intros e' ln' Hin Hne. apply (Hw3 e'); [|exact Hne]. apply in_or_app. left. apply in_map_iff. exists (e', ln'). auto.
+      - intro Hne. apply (Hw3 e); [|exact Hne]. apply in_or_app. right. left. reflexivity.
+      - intros s Hin. apply (Hh e s); [left; reflexivity | exact Hin]. }
+    assert (Hh1 : tr_hdrs_ok ahdr aparse (map fst es)) by (intros e' s Hin; apply Hh; right; exact Hin).
+    destruct (IH _ _ _ _ _ _ HI1 Hwf1 Hh1 Hsafe Er) as (A & B & C).
+    rewrite <- app_assoc in A. cbn [combine length fold_left map fst]. split; [exact A|]. split; [congruence | exact C].
+Qed.
+
+Lemma inv_init : stat f0 d = SFound Dir -> Inv (init_state f0) [].
+Proof.
+  intro Hd. unfold Inv. cbn [init_state st_fs st_map].
+  split; [apply stat_dir_chain, Hd|]. split; [intros id v Hv; discriminate Hv|]. split; [auto|].
+  split; [intros ? ? Hf; destruct Hf|]. split; [intros _ ? ? Hf; destruct Hf|]. split; [intros _ ? ? Hf; destruct Hf|].
+  split; [|intros ? ? Hf; destruct Hf].
+  intros _ _. split; [intros ? ? Hf; destruct Hf|]. split; intros; discriminate.
+Qed.
+
+Lemma members_in e m : In m (tr_members e) -> m = tr_with_subs e [] \/ In m (te_subs e).
+Proof. unfold tr_members. intros [<-|Hin]; auto. Qed.
+
+Lemma tail_with_subs e l : tr_tail c (tr_with_subs e l) = tr_tail c e.
+Proof. unfold tr_tail, tr_payload. destruct (tr_json c); reflexivity. Qed.
+Lemma node_with_subs e l : tr_node (tr_with_subs e l) = tr_node e.
+Proof. reflexivity. Qed.
+
+Theorem spec_tree items per all stf : stat f0 d = SFound Dir -> tr_wf c (map fst items) ->
+  tr_hdrs_ok ahdr aparse (map fst items) -> resume_safe items (init_state f0) ->
+  spec items (init_state f0) [] = Some (per, all, stf) ->
+  length per = length items /\ all = fold_left tr_add_name per [] /\
+  (forall e ln, In (e, ln) (combine (map fst items) per) ->
+     forall m, In m (tr_members e) -> lookup (st_fs stf) (d ++ ln :: tr_tail c m) = Some (tr_node m)) /\
+  (tc_overwrite c = true -> forall e ln, In (e, ln) (combine (map fst items) per) -> ln = tr_key c e) /\
+  (tc_overwrite c = false -> forall e ln, In (e, ln) (combine (map fst items) per) ->
+     lookup f0 (d ++ [ln]) = None /\ lookup (st_fs stf) (d ++ [ln]) <> None) /\
+  (forall q, lookup f0 q <> None -> lookup (st_fs stf) q <> None).
+Proof.
+  intros Hd Hwf Hh Hsafe Hs.
+  destruct (spec_inv items [] _ _ _ _ _ (inv_init Hd) Hwf Hh Hsafe Hs) as ((_ & _ & Hmono & Hcont & Hkey & Hfresh & _ & Hsubs) & Hl & Ha).
+  cbn [app] in *. split; [exact Hl|]. split; [exact Ha|]. split; [|auto].
+  intros e ln Hin m Hm. apply members_in in Hm as [->|Hm]; [rewrite tail_with_subs, node_with_subs; apply (Hcont e ln Hin) | apply (Hsubs e ln Hin m Hm)].
+Qed.
+
 End Tree.
 
 (* ---------- [tr_wfb] decides [tr_wf] ---------- *)
@@ -570,12 +759,33 @@ Proof.
     + right. exists e'. split; [right; exact Hi | exact Ee].
 Qed.
 
+Lemma subs_wfb_ok e : tr_subs_wfb e = true -> tr_subs_wf e.
+Proof.
+  unfold tr_subs_wfb. intro Hb. apply andb_true_iff in Hb as [Hb H4]. apply andb_true_iff in Hb as [Hb H3].
+  apply andb_true_iff in Hb as [H1 H2]. rewrite forallb_forall in H1, H3, H4. split.
+  - intros s Hs. specialize (H1 s Hs). apply andb_true_iff in H1 as [H1 Hd]. apply andb_true_iff in H1 as [H1 Hc].
+    apply andb_true_iff in H1 as [Ha Hb]. apply Z.eqb_eq in Ha. apply list_eqb_eq in Hc.
+    split; [exact Ha|]. split; [unfold tr_has_subs in Hb; destruct (te_subs s); [reflexivity | discriminate]|].
+    split; [exact Hc|]. destruct (te_rel s); [discriminate | discriminate].
+  - unfold Archive.awf_tree, tr_arch_entries. rewrite map_map. split; [|split].
+    + apply (nodupb_ok _ _) in H2; [exact H2|]. intros a b. apply Proofs.Archive.apath_eqb_eq.
+    + intros a Ha. apply in_map_iff in Ha as (s & <- & Hs). specialize (H3 s Hs). cbn. destruct (tl (te_rel s)); [discriminate | discriminate].
+    + intros a a' Ha Ha' Hd. apply in_map_iff in Ha as (s & <- & Hs). apply in_map_iff in Ha' as (s' & <- & Hs').
+      specialize (H4 s Hs). cbn in Hd. rewrite Hd in H4. cbn [orb] in H4. rewrite forallb_forall in H4.
+      specialize (H4 s' Hs'). apply negb_true_iff in H4. exact H4.
+Qed.
+
 Lemma tr_wfb_ok c es : tr_wfb c es = true -> tr_wf c es.
 Proof.
-  unfold tr_wfb, tr_wf. intro Hb. split.
-  - intros Eo Ej. rewrite Eo, Ej in Hb. apply andb_true_iff in Hb as [H1 H2]. split.
+  unfold tr_wfb, tr_wf. intro Hb. apply andb_true_iff in Hb as [Hb H3]. apply andb_true_iff in Hb as [Hb H2].
+  split; [|split; [|split]].
+  - intros Eo Ej. rewrite Eo, Ej in Hb. apply andb_true_iff in Hb as [H1 H1']. split.
     + apply (nodupb_ok _ _) in H1; [exact H1|]. intros [i1 t1] [i2 t2]. cbn [fst snd].
       rewrite andb_true_iff, Z.eqb_eq, path_eqb_eq. split; [intros [-> ->]; reflexivity | intro Hx; inversion Hx; auto].
-    + intros pre e post Heq Ht. destruct (first_top_ok es [] H2 pre e post Heq Ht) as [[]|Hx]; exact Hx.
+    + intros pre e post Heq Ht. destruct (first_top_ok es [] H1' pre e post Heq Ht) as [[]|Hx]; exact Hx.
   - intro Eo. rewrite Eo in Hb. apply (nodupb_ok _ _) in Hb; [exact Hb|]. intros a b. apply path_eqb_eq.
+  - intros e He Hne. rewrite forallb_forall in H2. specialize (H2 e He).
+    assert (Hs : tr_has_subs e = true) by (unfold tr_has_subs; destruct (te_subs e); [congruence | reflexivity]).
+    rewrite Hs in H2. cbn [negb orb] in H2. apply andb_true_iff in H2 as [Ha Hw]. split; [exact Ha | apply subs_wfb_ok, Hw].
+  - intro Ha. rewrite Ha in H3. cbn [negb orb] in H3. apply (nodupb_ok _ _) in H3; [exact H3|]. intros a b. apply Z.eqb_eq.
 Qed.
